@@ -13,7 +13,9 @@ import (
 	"strings"
 	"time"
 
+	"github.com/iden3/go-merkletree-sql/v2"
 	"github.com/iden3/go-schema-processor/v2/merklize"
+	"github.com/iden3/go-schema-processor/v2/verifiable"
 	"github.com/piprate/json-gold/ld"
 
 	"vharness/coqgen"
@@ -986,5 +988,72 @@ func (d *drv) resolverStream() {
 		st := cloneMap(bj.Status)
 		jset(st, jpath{"mtp", "siblings"}, clone(sibs))
 		d.statusResolveCase(&rawAnswer{Code: 200, Body: mustJSON(st)}, bj.Nonce, "siblings="+n)
+	}
+}
+
+// ---------------------------------- (vi) resolver answers handed over as Go values
+// A CredentialStatusResolver is pluggable: its answer need not have passed this
+// library's JSON decoders.  Proofs built with merkletree.NewProofFromData that the
+// library's RootFromProof cannot take (more levels than the bitmap, NodeAux without
+// key / value) must still end in an error (88617d1).
+type fixedResolver struct{ rs verifiable.RevocationStatus }
+
+func (f fixedResolver) Resolve(context.Context, verifiable.CredentialStatus) (verifiable.RevocationStatus, error) {
+	return f.rs, nil
+}
+
+func (d *drv) programmaticStatusStream() {
+	b := d.bundles[0]
+	var base verifiable.RevocationStatus
+	if err := json.Unmarshal(mustJSON(b.Status), &base); err != nil {
+		d.rep.Fail("c12-generator", "valid status answer does not decode: "+err.Error(), b.Status)
+		return
+	}
+	zeros := func(n int) []*merkletree.Hash {
+		l := make([]*merkletree.Hash, n)
+		for i := range l {
+			l[i] = &merkletree.HashZero
+		}
+		return l
+	}
+	one, _ := merkletree.NewHashFromBigInt(big.NewInt(1))
+	type variant struct {
+		why  string
+		ex   bool
+		sibs []*merkletree.Hash
+		aux  *merkletree.NodeAux
+	}
+	vs := []variant{
+		{"levels-241", false, zeros(241), nil}, {"levels-300", false, zeros(300), nil}, {"levels-300-existence", true, zeros(300), nil},
+		{"levels-240", false, zeros(240), nil}, {"levels-0", false, nil, nil},
+		{"aux-no-key", false, zeros(3), &merkletree.NodeAux{Value: one}}, {"aux-no-value", false, zeros(3), &merkletree.NodeAux{Key: one}},
+		{"aux-empty", false, zeros(3), &merkletree.NodeAux{}}, {"aux-full", false, zeros(3), &merkletree.NodeAux{Key: one, Value: one}},
+	}
+	sf := stateOf(asMap(b.Status["issuer"]), "state")
+	for _, v := range vs {
+		p, err := merkletree.NewProofFromData(v.ex, v.sibs, v.aux)
+		if err != nil {
+			continue
+		}
+		rs := base
+		rs.MTP = *p
+		reg := &verifiable.CredentialStatusResolverRegistry{}
+		reg.Register(statusType, fixedResolver{rs})
+		o := guard(watchdog, func() error {
+			_, err := verifiable.ValidateCredentialStatus(context.Background(),
+				verifiable.CredentialStatus{ID: "urn:x", Type: statusType, RevocationNonce: b.Nonce},
+				verifiable.WithValidationStatusResolverRegistry(reg))
+			return err
+		})
+		in := map[string]any{"stream": "status-go-value", "why": v.why}
+		d.rep.Evaluations++
+		d.rep.Count("status-go-value:" + o.Class)
+		d.rep.Distinct("stgo:" + v.why)
+		if o.Class == "panic" || o.Class == "hang" {
+			d.fail("ValidateCredentialStatus(resolver value "+v.why+")", o, in)
+		}
+		m := mtpOfProof(p, sf.hrtr, new(big.Int).SetUint64(b.Nonce), big.NewInt(0))
+		m = strings.TrimSuffix(strings.TrimPrefix(m, "(Some "), ")")
+		d.addCase(lit(fmt.Sprintf("IStatus (mkstatusf (RSObj true true) true true (RAns (mkstatusj true None) %s %s))", sf.coq(), m)), o.Class, in)
 	}
 }
